@@ -741,6 +741,23 @@ pub fn damage_then(prop: &str, d: &Driver, case: &Case, image: &Image, ops: &[Da
 /// zeroed so that the log ends right after the first frame; the next entry written after recovery lands exactly
 /// where the lost frame was and has exactly its size.
 pub fn aimed_damage_then(p: &Parsed, d: &Driver, rng: &mut Rng) -> Option<(Vec<DamageOp>, Vec<Op>)> {
+    // one time in three: a payload bit of the *last* frame of the log (checksum mismatch), then a shorter append to the
+    // same queue and a restart - where the writer resumes relative to a bad last frame decides what the next open reads
+    if rng.chance(1, 3) {
+        if let Some(e) = p.entries.iter().rev().find(|e| matches!(e.kind, EntryKind::Append { .. })) {
+            if e.last_frame + 1 == p.frames.len() {
+                let f = &p.frames[e.last_frame];
+                if let (EntryKind::Append { queue, .. }, true) = (&e.kind, f.len > 64) {
+                    if let Some(q) = d.names.iter().position(|n| n == queue) {
+                        let ops = vec![DamageOp::Flip { file: f.file, off: f.off + HDR + rng.usize_below(f.len), bit: rng.below(8) as u8 }];
+                        let len = rng.below((f.len as u64 / 2).max(1)) as u32;
+                        let cont = vec![Op::Append { q, pos: None, lens: vec![len], uid: 5_000_001 + 2 * rng.below(1000) as u32 }, Op::Restart { policy: None }];
+                        return Some((ops, cont));
+                    }
+                }
+            }
+        }
+    }
     let cands: Vec<&crate::walparse::Entry> = p.entries.iter().filter(|e| e.last_frame == e.first_frame + 1 && matches!(e.kind, EntryKind::Append { .. })).collect();
     if cands.is_empty() {
         return None;
